@@ -104,7 +104,7 @@ func selfTest(root, onlyProp string, verbose bool) (ran, bad int, lines []string
 		return m
 	}
 	var dirs []string
-	for _, pat := range []string{"seeded/*", "selftest/benign/*"} {
+	for _, pat := range []string{"seeded/*", "selftest/benign/*", "selftest/positive/*"} {
 		ds, _ := filepath.Glob(filepath.Join(root, pat))
 		dirs = append(dirs, ds...)
 	}
